@@ -88,6 +88,20 @@ Theorem peerstore_roundtrip (infos : list pinfo) (self2 : N) (query : list N) :
 Proof. exact (fun Hw Hs Hp => conj (load_save infos) (reload_roundtrip self2 infos query Hw Hs Hp)). Qed.
 Print Assumptions peerstore_roundtrip.
 
+(* what PeerInfos returns is always well formed (for every peerstore reachable by imports and every list of distinct
+   peers), so the round trip applies to whatever a host saves at shutdown: whatever file the host started from, what
+   it saves reads back identically on another host *)
+Theorem peerstore_roundtrip_from_any_file (ls : list line) (self self2 : N) (peers query : list N) (ps : pstore) :
+  import_file true self ls ps_empty = IOk ps -> NoDup peers ->
+  let infos := peer_infos self ps peers in
+  wf_infos infos /\
+  (~ In self2 (map fst infos) -> Permutation query (map fst infos) -> reload self2 infos query = Some infos).
+Proof.
+  exact (fun E Hnd => conj (proj1 (peer_infos_wf self ps peers (import_peers_ok self _ _ _ _ ps_empty_ok E) Hnd))
+                           (roundtrip_from_any_file ls self peers self2 query ps E Hnd)).
+Qed.
+Print Assumptions peerstore_roundtrip_from_any_file.
+
 (* S14, before the repair (fix: LoadPeerstore skips lines that fail to parse): the line "/foo" yields a nil element and
    the import dereferences it. Kept as the witness of what the corpus input used to do. *)
 Example peerstore_nil_before_fix :
